@@ -49,6 +49,19 @@ fn main() {
             });
             e1c::run(seed, shard, nshards, a.u64("cases", if thorough { 60 } else { 3 }), a.u64("max_points", if thorough { 2000 } else { 400 }) as usize, only, &mut rep);
         }
+        "e1o" => {
+            let only = replay.as_ref().map(|r| {
+                let f = &r["fault"];
+                let fault = if let Some(o) = f.get("outage") {
+                    e1o::Fault::Outage { rpc: o[0].as_u64().unwrap(), polls_down: o[1].as_u64().unwrap() as u32, with_following_chain_ops: o[2].as_bool().unwrap() }
+                } else {
+                    let d = &f["src_failure"];
+                    e1o::Fault::SrcFailure { op: d[0].as_u64().unwrap() as usize, call: d[1].as_u64().unwrap(), len: d[2].as_u64().unwrap() }
+                };
+                (r["case"].as_u64().unwrap(), fault)
+            });
+            e1o::run(seed, shard, nshards, a.u64("cases", if thorough { 40 } else { 3 }), a.u64("max_faults", if thorough { 400 } else { 60 }) as usize, only, &mut rep);
+        }
         "e2" => {
             let only = replay.as_ref().map(|r| {
                 let name = r["scenario"].as_str().unwrap_or("").to_string();
